@@ -57,7 +57,7 @@ ParseFmt(s) ==
                 afterFlag == IF left THEN SubSeq(s, 3, Len(s)) ELSE Tail(s)
                 w == TakeDigits(afterFlag)
                 rest == SubSeq(afterFlag, Len(w) + 1, Len(afterFlag))
-            IN IF rest = <<>> \/ rest[1] \notin Directives \/ Len(w) > 3 \/ (w # <<>> /\ w[1] = 48)
+            IN IF rest = <<>> \/ rest[1] \notin Directives \/ Len(w) > 6 \/ (w # <<>> /\ w[1] = 48)
                THEN [ok |-> FALSE, comps |-> <<>>]
                ELSE LET r == ParseFmt(Tail(rest)) IN
                     [ok |-> r.ok,
@@ -119,8 +119,7 @@ DirDom(ctx, e, comp) ==
   /\ (c = 109 => ctx.tree[e.eff].mode >= 64)
   /\ (comp.width > 0 => \A i \in DOMAIN Value(ctx, e, c) : Value(ctx, e, c)[i] < 128)
 
-RECURSIVE Blanks(_)
-Blanks(n) == IF n <= 0 THEN <<>> ELSE <<32>> \o Blanks(n - 1)
+Blanks(n) == [k \in 1..n |-> 32]        \* (<<>> for n <= 0; columns may be hundreds of thousands wide)
 Pad(v, width, left) == IF left THEN v \o Blanks(width - Len(v)) ELSE Blanks(width - Len(v)) \o v
 
 RenderComp(ctx, e, comp) ==
